@@ -702,6 +702,102 @@ theorem evalGap_guarantees (X : Ctx) (O : Nat → Hyp) (TC : Table) (hc : TC.nC 
     rw [hcj] at this
     linarith
 
+/-- **(3b) for the OUTPUT of the modelled loop, any run, any oracle answers from the class**: the returned gap
+    `best_gap_ = gaps[best_iter_]` IS the gap `eval_gap` computed for the returned `weights_ = Qs[best_iter_]` in one
+    specific call (store `c.hs`, first oracle call number `c.k`, multiplier `c.lamHat` = that iteration's `lambda_EG` or
+    the LP's dual solution — also when the LP result came from the `last_linprog_n_hs` cache). -/
+theorem loop_certificate {P : Params} (O : Oracles) (TC : Table) (hO : ∀ k, ∃ i, IsMember TC (O.h k) i) (b : Nat)
+    (hb : bestIterOf (run P O) = some b) :
+    ∃ c : Cert, (run P O).gaps.getD b 0 = certGap P O c ∧ (run P O).qs.getD b [] = c.Q ∧ Members TC c.hs := by
+  have hinv : CertInv P O TC (run P O) := certInv_runN P O TC hO P.maxIter
+  have hlt : b < (run P O).gaps.length := (bestIter_spec _ b hb).1
+  have hlen : (run P O).certs.length = (run P O).gaps.length := by rw [hinv.gaps_eq]; simp
+  have hlt' : b < (run P O).certs.length := by omega
+  obtain ⟨h1, h2, h3⟩ := hinv.cert_ok _ (List.getElem_mem hlt')
+  refine ⟨((run P O).certs[b]).1, ?_, ?_, h3⟩
+  · rw [← h1, hinv.gaps_eq]
+    simp [List.getD_eq_getElem?_getD, hlt']
+  · rw [← h2, hinv.qs_eq]
+    simp [List.getD_eq_getElem?_getD, hlt']
+
+/-- **(3b) the property's two guarantees for the output of the modelled loop.**  With `g = best_gap_`,
+    `Q = weights_`: if the oracle's answers are class members, the ONE oracle call at `mul = 1` of the certifying
+    `eval_gap` call was exact, and the (projected) multiplier of that call is non-negative, then for every feasible
+    distribution `Q*` over the class   `error(Q) <= error(Q*) + 2 g + _PRECISION`   and every constraint of `Q`
+    exceeds its bound by at most `(1 + 2 g + _PRECISION)/B`.  (`_PRECISION = 1e-8` is the cache tolerance of `best_h`;
+    `precision_slack_needed` below shows it cannot be dropped.) -/
+theorem loop_guarantees {P : Params} (O : Oracles) (TC : Table) (hB : 0 < P.B) (hc : TC.nC = P.c.length)
+    (hcc : TC.c = vec P.c) (ha : AntiSym P.ctx TC) (hO : ∀ k, ∃ i, IsMember TC (O.h k) i) (b : Nat)
+    (hb : bestIterOf (run P O) = some b) :
+    ∃ c : Cert, (run P O).gaps.getD b 0 = certGap P O c ∧ (run P O).qs.getD b [] = c.Q ∧
+      ((∀ i < TC.nH, storedValue c.lamHat (O.h c.k) ≤ classValue TC c.lamHat i) →
+       (∀ j < TC.nC, 0 ≤ projLam P.ctx c.lamHat j) → ∀ Q', Feasible TC Q' →
+        errQ (tableOf P.c c.hs) (vec ((run P O).qs.getD b []))
+          ≤ errQ TC Q' + 2 * (run P O).gaps.getD b 0 + EGGen.precision ∧
+        (0 ≤ errQ (tableOf P.c c.hs) (vec ((run P O).qs.getD b [])) → errQ TC Q' ≤ 1 → ∀ j < P.c.length,
+          gamQ (tableOf P.c c.hs) (vec ((run P O).qs.getD b [])) j - vec P.c j
+            ≤ (1 + 2 * (run P O).gaps.getD b 0 + EGGen.precision) / P.B)) := by
+  obtain ⟨c, h1, h2, h3⟩ := loop_certificate O TC hO b hb
+  refine ⟨c, h1, h2, ?_⟩
+  intro hexact hlam Q' hf
+  rw [h1, h2]
+  exact evalGap_guarantees P.ctx O.h TC hc hcc ha c.hs h3 c.k c.Q c.lamHat (hO c.k) hexact hB hlam Q' hf
+
+/-- the `_PRECISION` slack is real: stored `h0` (value 1/2), oracle answers the true minimiser `h1` (value 1/2 - 5e-9);
+    the improvement is below `_PRECISION`, `best_h` returns `h0`, and `eval_gap` reports gap `0` although the true
+    duality gap of `(Q = h0, lambda = 0)` over the class `{h0, h1}` is `5e-9`. -/
+def slackX : Ctx := ⟨4, [1/10], false, 1/100⟩
+def slackTC : Table := mkTable [1/2, 1/2 - 5/1000000000] [[0, 0]] [1/10]
+theorem precision_slack_needed :
+    (evalGap slackX (fun _ => ⟨1/2 - 5/1000000000, [0]⟩) [⟨1/2, [0]⟩] 0 [1] [0]).2.2.gap = 0 ∧
+    classGap slackTC (projLam slackX [0]) (1/2) (1/2) = 5/1000000000 := by
+  constructor <;> decide +kernel
+
+/-! ### (4) the `best_h` cache -/
+
+/-- the store is append-only; a classifier is appended exactly when the oracle's answer beats EVERY stored value at
+    the multiplier asked by more than `_PRECISION` (so the values of successive additions, each under its own multiplier,
+    strictly improve on everything stored before), and then it is the returned index -/
+theorem best_h_store (hs : List Hyp) (lam : List Rat) (h : Hyp) :
+    ((bestH hs lam h).1 = hs ∧ (bestH hs lam h).2 < hs.length) ∨
+    ((bestH hs lam h).1 = hs ++ [h] ∧ (bestH hs lam h).2 = hs.length ∧
+      ∀ g ∈ hs, storedValue lam h < storedValue lam g - EGGen.precision) := bestH_store hs lam h
+
+/-- the returned index always refers to a stored classifier, whose `h_value` at the multiplier asked is within
+    `_PRECISION` of the oracle's answer and minimal over the store -/
+theorem best_h_returned (hs : List Hyp) (lam : List Rat) (h : Hyp) :
+    (bestH hs lam h).2 < (bestH hs lam h).1.length ∧
+    storedValue lam ((bestH hs lam h).1.getD (bestH hs lam h).2 default) ≤ storedValue lam h + EGGen.precision ∧
+    ∀ g ∈ (bestH hs lam h).1,
+      storedValue lam ((bestH hs lam h).1.getD (bestH hs lam h).2 default) ≤ storedValue lam g :=
+  ⟨bestH_idx_lt hs lam h, (bestH_value hs lam h).1, (bestH_value hs lam h).2⟩
+
+/-! ### (3c) the `project_lambda` step inside `_eval` -/
+
+/-- for a uniform non-negative bound and a mixture whose `-` constraint values are the negated `+` values (every
+    UtilityParity moment with ratio 1), projecting a non-negative multiplier never lowers the Lagrangian of that `Q`:
+    `L(Q, project(lambda)) >= L(Q, lambda)`; `L_high` does not depend on the multiplier, so the `L_high - L` half of the
+    gap can only shrink, and by `project_preserves_best_response` the best responses are unchanged. -/
+theorem project_raises_L (T : Table) (m : Nat) (c0 : Rat) (Q lam : Nat → Rat) (hn : T.nC = m + m) (hc0 : 0 ≤ c0)
+    (hc : ∀ j < m + m, T.c j = c0) (hg : ∀ j < m, gamQ T Q (m + j) = -gamQ T Q j) (hl : ∀ j < m + m, 0 ≤ lam j) :
+    lagr T Q lam ≤ lagr T Q (project m lam) ∧
+    lHigh T B Q - lagr T Q (project m lam) ≤ lHigh T B Q - lagr T Q lam := by
+  have key : lagr T Q lam ≤ lagr T Q (project m lam) := by
+    unfold lagr
+    rw [sumTo_eq, sumTo_eq, hn]
+    have e1 : ∀ l : Nat → Rat, ∑ j ∈ range (m + m), l j * viol T Q j
+        = ∑ j ∈ range (m + m), l j * gamQ T Q j - c0 * ∑ j ∈ range (m + m), l j := by
+      intro l
+      rw [Finset.mul_sum, ← Finset.sum_sub_distrib]
+      apply Finset.sum_congr rfl
+      intro j hj
+      unfold viol
+      rw [hc j (Finset.mem_range.mp hj)]; ring
+    rw [e1 lam, e1 (project m lam), project_dot m lam (gamQ T Q) hg]
+    have := Saddle.project_l1_le m lam hl
+    nlinarith
+  exact ⟨key, by linarith⟩
+
 end Cert
 
 /-! Non-vacuity for the loop: a 2-constraint run with a positive "exponential", two oracle answers. -/
@@ -711,5 +807,15 @@ example : LoopHyp exP := ⟨by decide +kernel, fun x => by show 0 < 1 + x * x; n
 example : (EGLoop.run exP exO).t = 3 := by decide +kernel
 example : (EGLoop.run exP exO).lamCols.head? = some [4/3, 4/3] := by decide +kernel
 example : ((EGLoop.run exP exO).qs.getD 2 []).sum = 1 := by decide +kernel
+example : (EGLoop.run exP exO).certs.length = 3 := by decide +kernel
+
+/-! Non-vacuity for the LP theorems on the table `exT` (B = 4): `(Q, t) = (1/5, 4/5, 0)` and `(lambda, mu) = (1, 0, 2/5)`
+    are feasible with equal objectives `2/5`, hence both optimal by `lp_weak_duality`. -/
+example : LinProg.primalFeasible exT [1/5, 4/5, 0] = true := by decide +kernel
+example : LinProg.dualFeasible exT 4 [1, 0, 2/5] = true := by decide +kernel
+example : LinProg.primalObj exT 4 [1/5, 4/5, 0] = 2/5 ∧ LinProg.dualObj exT [1, 0, 2/5] = -(2/5) := by
+  constructor <;> decide +kernel
+example : LinProg.primalFeasible exT [1, 0, 0] = false := by decide +kernel
+example : LinProg.Aub exT = [[2/5, -1/10, -1], [-3/5, -1/10, -1]] := by decide +kernel
 
 end C08
